@@ -245,7 +245,9 @@ def to_string(value: JSValue) -> str:
     if isinstance(value, bool):
         return "true" if value else "false"
     if isinstance(value, int):
-        return str(value)
+        if -_MAX_SAFE_INT <= value <= _MAX_SAFE_INT:
+            return str(value)
+        value = to_number(value)  # a host integer that large prints as the double it denotes
     if isinstance(value, float):
         if is_nan(value):
             return "NaN"
